@@ -169,11 +169,12 @@ def report(ctx, res, trace):
 
 # ---------------------------------------------------------------- binding demonstration
 def _mut_path(e):
-    """A backend call is rewritten to a path outside the allowed set (one more component)."""
+    """A backend call is rewritten to a path outside the allowed set (two more components: one more could
+    happen to be the very name the request carries, as on seed 4 where the name was "b" = hex 62)."""
     if e.get("ev") == "req" and e.get("hasnm") and e.get("calls") and e.get("proc") in ("LOOKUP", "CREATE", "MKDIR"):
         for c in e["calls"]:
             if c["op"] in ("Lstat", "Mkdir") and c["abs"]:
-                c["c"] = c["c"] + ["62"]
+                c["c"] = c["c"] + ["62", "7a7a"]
                 return e
     return None
 
